@@ -15,3 +15,15 @@ func simOrderNodes(nodes []graph.Node) {
 		SimOrder(nodes)
 	}
 }
+
+// SimYield, when non-nil, is a plain scheduling point. The simulator's build
+// step may insert calls to simYield between any two statements of this
+// package, so that overlapping ShortestRoute calls can be interleaved at
+// statement granularity.
+var SimYield func()
+
+func simYield() {
+	if SimYield != nil {
+		SimYield()
+	}
+}
